@@ -19,6 +19,8 @@ pub fn def() -> PropDef {
         needed_probes: &["c02_reply_checked", "call_pending_at_death", "c02_op_after_death_checked"],
         quick_runs: 30_000,
         thorough_runs: 2_000_000,
+        block: 1,
+        flavours: &["tokio"],
     }
 }
 
